@@ -413,6 +413,8 @@ class Actor:
                 s = o.state(r, c, **kw)
             elif kind == "qstate":
                 s = o.state(r, c, quad=True, **kw)
+            elif kind == "hstate":
+                s = o.control(r, c, order=op.get("order", 1), **kw)
             elif kind == "control":
                 if op.get("order", 0):
                     kw["order"] = op["order"]
